@@ -230,8 +230,8 @@ func stringList(v starlark.Value) ([]string, error) {
 
 func vbBody(thread *starlark.Thread, fn *starlark.Builtin, args starlark.Tuple, kwargs []starlark.Tuple) (starlark.Value, error) {
 	var lab string
-	var readsV, writesV, vals starlark.Value
-	if err := starlark.UnpackPositionalArgs("body", args, kwargs, 4, &lab, &readsV, &writesV, &vals); err != nil {
+	var readsV, writesV, vals, listsV starlark.Value
+	if err := starlark.UnpackPositionalArgs("body", args, kwargs, 4, &lab, &readsV, &writesV, &vals, &listsV); err != nil {
 		return nil, err
 	}
 	reads, err := stringList(readsV)
@@ -243,6 +243,17 @@ func vbBody(thread *starlark.Thread, fn *starlark.Builtin, args starlark.Tuple, 
 		return nil, err
 	}
 	root := ctl.spec.Root
+	// paths the engine hands a body (self.sources, self.generates) are absolute host paths: what is used is the path
+	// relative to the project root
+	rel := func(p string) string {
+		if filepath.IsAbs(p) {
+			return filepath.ToSlash(strings.TrimPrefix(p, root+string(filepath.Separator)))
+		}
+		return p
+	}
+	for i := range writes {
+		writes[i] = rel(writes[i])
+	}
 	ctl.appendLine("exec.log", "B\t"+lab)
 	for _, f := range ctl.spec.Fail {
 		if f == lab {
@@ -257,25 +268,27 @@ func vbBody(thread *starlark.Thread, fn *starlark.Builtin, args starlark.Tuple, 
 		}
 	}
 	h := sha256.New()
-	fmt.Fprintf(h, "label %q\nvals %s\n", lab, vals.String())
-	// The sources the engine hands a body (self.sources: absolute paths) are processed as a SET, sorted: the order and
-	// multiplicity of the entries of sources= are not inputs dawn tracks (only the set of dependencies is recorded), and
-	// a body that depended on them would go stale on a mere reordering. That is reported as an observation, not tested.
-	{
-		var abs, rest []string
-		seen := map[string]bool{}
-		for _, r := range reads {
-			if filepath.IsAbs(r) {
-				if !seen[r] {
-					seen[r] = true
-					abs = append(abs, r)
+	fmt.Fprintf(h, "label %q\nvals %s\nwrites %q\n", lab, vals.String(), writes)
+	// The lists a body reads through `self` (self.dependencies, self.sources, self.generates), in order and with
+	// multiplicity: a body may depend on them as on any other input (D32)
+	if listsV != nil {
+		if it, ok := listsV.(starlark.Iterable); ok {
+			iter := it.Iterate()
+			var lv starlark.Value
+			for iter.Next(&lv) {
+				ls, err := stringList(lv)
+				if err != nil {
+					iter.Done()
+					return nil, err
 				}
-			} else {
-				rest = append(rest, r)
+				fmt.Fprintf(h, "list")
+				for _, x := range ls {
+					fmt.Fprintf(h, " %q", rel(x))
+				}
+				fmt.Fprintf(h, "\n")
 			}
+			iter.Done()
 		}
-		sort.Strings(abs)
-		reads = append(abs, rest...)
 	}
 	for _, r := range reads {
 		p := filepath.Join(root, filepath.FromSlash(r))
